@@ -32,7 +32,10 @@ func (w *World) CacheInvariant() error {
 	if w.Client == nil {
 		return nil
 	}
-	st := gohbase.VerifSnapshot(w.Client)
+	st, ok := gohbase.VerifSnapshot(w.Client)
+	if !ok {
+		return nil
+	}
 	for i, a := range st.Regions {
 		if a.Dead {
 			return fmt.Errorf("C08 cache holds dead region %q", a.Name)
@@ -90,7 +93,10 @@ func (w *World) CacheLookupCheck(keys map[string][][]byte) []Violation {
 	if w.Client == nil {
 		return nil
 	}
-	st := gohbase.VerifSnapshot(w.Client)
+	st, ok := gohbase.VerifSnapshot(w.Client)
+	if !ok {
+		return nil
+	}
 	for table, ks := range keys {
 		for _, k := range ks {
 			var want *gohbase.VerifRegion
